@@ -70,7 +70,7 @@ def tree(rnd, d, big):
         if r < 0.7 or big:
             return P.C(rnd.choice([0, 1, 2, 3, 5, 7, 10, -1, -4, 12, 2 ** 31, 10 ** 15, 64, 63, 100] if big else [0, 1, 2, 3, 5, 7, 10, -1, -4, 12]))
         return ("c", ("f", F(rnd.choice(FLTS))))
-    k = rnd.choice(["add", "add", "sub", "mul", "mul", "pow", "neg", "fact", "eq"] if big else ["add", "add", "sub", "mul", "mul", "div", "pow", "neg", "fact", "sgn", "eq"])
+    k = rnd.choice(["add", "add", "sub", "mul", "mul", "pow", "neg", "fact", "eq", "abs"] if big else ["add", "add", "sub", "mul", "mul", "div", "pow", "neg", "fact", "sgn", "eq", "abs"])
     if k == "fact":
         return ("fact", P.C(rnd.choice([0, 1, 3, 5, 10, 20, 25] if big else [0, 1, 3, 5])))
     if k == "pow":
